@@ -1134,3 +1134,101 @@ fire('C15', 'combiner-policy-defaulted-with-or (seed C15-e)', 'C15.R9', 'Combine
 silent('C15', 'combiner-policy-defaulted-when-none',
        lambda p: M.replace_node(p, N_CMB, 'Combiner.__init__', M.assign_to('self.out_edge_selection'),
                                 'self.out_edge_selection = out_edge_selection if out_edge_selection is not None else "FIRST_AVAILABLE"'))
+
+
+# ============================================================================================ every seeded change, as a firing variant
+# /verif/seeded/<id>/patch.diff is applied in memory (mutate.apply_patch; stale when a hunk no longer matches the tree).  seed_table.json
+# (tools/seed_variants.py) says which properties' own rules reported it and with which rule; the thorough tier re-checks exactly that.
+import json as _json
+_SEEDS = _pl.Path(__file__).resolve().parent.parent.parent / 'seeded'
+_TABLE = _pl.Path(__file__).resolve().parent / 'seed_table.json'
+if _TABLE.exists():
+    for _sid, _props in sorted(_json.loads(_TABLE.read_text()).items()):
+        for _prop, _rule in sorted(_props.items()):
+            fire(_prop, f'seeded change {_sid} (independent sub-agent)', _rule, '',
+                 lambda p, _sid=_sid: M.apply_patch(p, (_SEEDS / _sid / 'patch.diff').read_text()))
+
+
+# ============================================================================================ round-6 rules: behaviour-preserving twins
+# C04.R3 (the trigger serves whoever calls it): an early exit that says "the queue is empty" is not a lost wake-up
+silent('C04', 'slotted-trigger-returns-early-when-queue-empty',
+       lambda p: M.insert_before(p, S_SLOT, 'BeltStore._trigger_reserve_put', lambda n: isinstance(n, ast.Assign) and ast.unparse(n).replace(' ', '') == 'idx=0',
+                                 'if not self.reserve_put_queue:\n    return'))
+silent('C04', 'buffer-trigger-returns-early-when-queue-empty',
+       lambda p: M.insert_before(p, S_BUF, 'BufferStore._trigger_reserve_get', lambda n: isinstance(n, ast.Assign) and ast.unparse(n).replace(' ', '') == 'idx=0',
+                                 'if len(self.reserve_get_queue) == 0:\n    return'))
+fire('C04', 'buffer-trigger-returns-early-for-foreign-argument', 'C04.R3', 'BufferStore._trigger_reserve_put',
+     lambda p: M.insert_before(p, S_BUF, 'BufferStore._trigger_reserve_put', lambda n: isinstance(n, ast.Assign) and ast.unparse(n).replace(' ', '') == 'idx=0',
+                               'if event is not None and event not in self.reserve_put_queue:\n    return'))
+# C13.R6 (the sweep is unconditional): "nothing recorded" is a fine reason to return
+silent('C13', 'belt-sweep-returns-early-when-table-empty',
+       lambda p: M.insert_before(p, S_BELT, 'BeltStore.interrupt_and_resume_all_delayed_interrupt_processes', lambda n: isinstance(n, ast.For),
+                                 'if not self.active_delayed_interrupt_processes:\n    return'))
+fire('C13', 'belt-sweep-skipped-when-not-accumulating', 'C13.R6', 'sweep-is-unconditional',
+     lambda p: M.insert_before(p, S_BELT, 'BeltStore.interrupt_and_resume_all_delayed_interrupt_processes', lambda n: isinstance(n, ast.For),
+                               'if not self.accumulation_mode_indicator:\n    return'))
+# C14.R7 / C06.R5 / C12.R4 / C13.R8 (constructor wiring): a local alias is the same value, a constant or an expression is not
+silent('C14', 'fleet-store-built-from-local-aliases',
+       lambda p: M.chain(p, lambda q: M.insert_before(q, E_FLT, 'Fleet.__init__', M.assign_to('self.inbuiltstore'), 'wait = self.delay\ntrip = transit_delay'),
+                         lambda q: M.replace_node(q, E_FLT, 'Fleet.__init__', M.assign_to('self.inbuiltstore'),
+                                                  'self.inbuiltstore = FleetStore(env, capacity=self.capacity, delay=wait, transit_delay=trip)')))
+fire('C14', 'fleet-store-built-with-doubled-transit', 'C14.R7', 'store-parameter(transit_delay)',
+     lambda p: M.replace_node(p, E_FLT, 'Fleet.__init__', M.assign_to('self.inbuiltstore'),
+                              'self.inbuiltstore = FleetStore(env, capacity=self.capacity, delay=self.delay, transit_delay=2 * self.transit_delay)'))
+fire('C14', 'fleet-store-built-without-delay', 'C14.R7', 'store-parameter(delay)',
+     lambda p: M.replace_node(p, E_FLT, 'Fleet.__init__', M.assign_to('self.inbuiltstore'),
+                              'self.inbuiltstore = FleetStore(env, capacity=self.capacity, transit_delay=self.transit_delay)'))
+fire('C06', 'buffer-store-built-with-default-mode', 'C06.R5', 'store-parameter(mode)',
+     lambda p: M.replace_node(p, E_BUF, 'Buffer.__init__', M.assign_to('self.inbuiltstore'), 'self.inbuiltstore = BufferStore(env, capacity=self.capacity)'))
+silent('C06', 'buffer-store-built-positionally',
+       lambda p: M.replace_node(p, E_BUF, 'Buffer.__init__', M.assign_to('self.inbuiltstore'), 'self.inbuiltstore = BufferStore(env, self.capacity, mode)'))
+fire('C12', 'continuous-belt-built-with-unit-speed', 'C12.R4', 'store-parameter(speed)',
+     lambda p: M.replace_node(p, E_CC, 'ConveyorBelt.__init__', M.assign_to('self.belt'), 'self.belt = BeltStore(env, capacity, 1, self.accumulating)'))
+fire('C13', 'continuous-belt-built-always-accumulating', 'C13.R8', 'store-parameter(accumulation_mode_indicator)',
+     lambda p: M.replace_node(p, E_CC, 'ConveyorBelt.__init__', M.assign_to('self.belt'), 'self.belt = BeltStore(env, capacity, self.speed, True)'))
+silent('C13', 'continuous-belt-built-with-keywords',
+       lambda p: M.replace_node(p, E_CC, 'ConveyorBelt.__init__', M.assign_to('self.belt'),
+                                'self.belt = BeltStore(env, capacity=capacity, speed=speed, accumulation_mode_indicator=accumulating)'))
+silent('C12', 'continuous-belt-built-with-keywords',
+       lambda p: M.replace_node(p, E_CC, 'ConveyorBelt.__init__', M.assign_to('self.belt'),
+                                'self.belt = BeltStore(env, capacity=capacity, speed=speed, accumulation_mode_indicator=accumulating)'))
+# C15.R7 (a fresh selector per call): binding the generator to a local first is the same thing
+silent('C15', 'edge-selector-built-into-a-local-first',
+       lambda p: {'utils/utils.py': p.modules['utils/utils.py'].src.replace('    return strategies[sel_type](node, env, edge_type)',
+                                                                             '    selector = strategies[sel_type](node, env, edge_type)\n    return selector', 1)})
+fire('C15', 'edge-selector-shared-per-strategy', 'C15.R7', 'fresh-selector-per-call',
+     lambda p: {'utils/utils.py': p.modules['utils/utils.py'].src.replace('    return strategies[sel_type](node, env, edge_type)',
+                                                                           '    cache = node.__dict__.setdefault("_sel", {})\n    if sel_type not in cache:\n        cache[sel_type] = strategies[sel_type](node, env, edge_type)\n    return cache[sel_type]', 1)})
+# C05.R1: a request served on the spot while nobody waits overtakes nobody (C01 decides whether the grant itself was allowed)
+silent('C05', 'buffer-reserve-put-fast-path-when-nobody-waits',
+       lambda p: M.insert_before(p, S_BUF, 'BufferStore.reserve_put', M.stmt_calling('self.reserve_put_queue.append'),
+                                 'if not self.reserve_put_queue and len(self.items) + len(self.ready_items) + len(self.reservations_put) < self.capacity:\n'
+                                 '    self.reservations_put.append(event)\n    event.succeed()\n    return event'))
+silent('C01', 'buffer-reserve-put-fast-path-when-nobody-waits',
+       lambda p: M.insert_before(p, S_BUF, 'BufferStore.reserve_put', M.stmt_calling('self.reserve_put_queue.append'),
+                                 'if not self.reserve_put_queue and len(self.items) + len(self.ready_items) + len(self.reservations_put) < self.capacity:\n'
+                                 '    self.reservations_put.append(event)\n    event.succeed()\n    return event'))
+silent('C04', 'buffer-reserve-put-fast-path-when-nobody-waits',
+       lambda p: M.insert_before(p, S_BUF, 'BufferStore.reserve_put', M.stmt_calling('self.reserve_put_queue.append'),
+                                 'if not self.reserve_put_queue and len(self.items) + len(self.ready_items) + len(self.reservations_put) < self.capacity:\n'
+                                 '    self.reservations_put.append(event)\n    event.succeed()\n    return event'))
+fire('C05', 'buffer-reserve-put-fast-path-ignores-the-queue', 'C05.R1', 'BufferStore.reserve_put',
+     lambda p: M.insert_before(p, S_BUF, 'BufferStore.reserve_put', M.stmt_calling('self.reserve_put_queue.append'),
+                               'if len(self.items) + len(self.ready_items) + len(self.reservations_put) < self.capacity:\n'
+                               '    self.reservations_put.append(event)\n    event.succeed()\n    return event'))
+# C12.R1 (one grant per sweep of a belt queue)
+fire('C12', 'continuous-do-reserve-put-returns-true-after-grant', 'C12.R1', 'one grant per sweep',
+     lambda p: M.insert_after(p, S_BELT, 'BeltStore._do_reserve_put', M.stmt_calling('event.succeed'), 'return True', which=0))
+# C11.R1: a grant that depends on a flag cannot agree with a query that compares lengths
+fire('C11', 'fleet-grant-withheld-while-flagged', 'C11.R1', 'Fleet.can_put',
+     lambda p: M.chain(p, lambda q: M.insert_after(q, S_FLT, 'FleetStore.__init__', M.assign_to('self.activate_fleet'), 'self.away = False'),
+                       lambda q: M.insert_before(q, S_FLT, 'FleetStore._do_reserve_put', lambda n: isinstance(n, ast.If), 'if self.away:\n    return', which=0)))
+# added code that changes nothing (normalisation N35)
+silent('C07', 'buffer-put-counts-its-calls',
+       lambda p: M.insert_before(p, S_BUF, 'BufferStore.put', lambda n: isinstance(n, ast.Assign), "self._n_put_calls = getattr(self, '_n_put_calls', 0) + 1", which=0))
+silent('C04', 'buffer-do-reserve-get-looks-at-the-list-after-the-grant',
+       lambda p: M.insert_after(p, S_BUF, 'BufferStore._do_reserve_get', M.stmt_calling('self.reservations_get.append'),
+                                'for _seen in list(self.reservations_get):\n    _last_seen = _seen'))
+silent('C02', 'buffer-do-reserve-get-looks-at-the-list-after-the-grant',
+       lambda p: M.insert_after(p, S_BUF, 'BufferStore._do_reserve_get', M.stmt_calling('self.reservations_get.append'),
+                                'for _seen in list(self.reservations_get):\n    _last_seen = _seen'))
